@@ -55,6 +55,7 @@ type Req struct {
 	Key      int16
 	Version  int16
 	Corr     int32
+	ClientID string
 	Nth      int // nth request of this key seen by this Net (0-based)
 	Frame    []byte
 	body     []byte // after the request header
@@ -248,6 +249,7 @@ func (c *conn) onRequest(frame []byte) (kill bool) {
 		l := int(int16(binary.BigEndian.Uint16(body)))
 		body = body[2:]
 		if l > 0 && l <= len(body) {
+			r.ClientID = string(body[:l])
 			body = body[l:]
 		}
 	}
